@@ -27,7 +27,7 @@ ASSUMPTIONS = ['the reference model shares CPython list/dict/Decimal with the sy
 REAL = ['smartquery.* (lexer, PLY parser, evaluator, builtins)', 'decimal', 'copy']
 STUB = ['host (owner of the names mapping)']
 REACH_PROBES = ('failed_then_judged', 'lang_error', 'other_error', 'nested_target', 'equal_typed_key_pair',
-                'negative_index', 'fractional_index', 'write_then_read_same_key', 'repeated_source', 'cache_hit', 'inner_blank_sibling_source', 'unjudged_activity_between_calls')
+                'negative_index', 'fractional_index', 'write_then_read_same_key', 'repeated_source', 'cache_hit', 'inner_blank_sibling_source', 'unjudged_activity_between_calls', 'failing_compound_after_mutation')
 
 CONTAINERS = ['l', 'd', 'n', 'e', 'm']
 
@@ -198,6 +198,10 @@ def _gen_op(r, model, last_write):
     if kind == 'cwrite':
         op = r.choice(['+=', '-=', '/=', '+=', '*='])
         return ['setitemop', texpr, key(), op, gen.scalar_tree(r) if r.random() < 0.8 else gen.value_tree(r, 1)], probes
+    if kind == 'del' and is_list and r.random() < 0.12:
+        # fails (the target was never bound) AFTER its right-hand side ran: the pop / push on the container has happened
+        rhs = r.choice([['call', 'pop', [texpr], 'plain'], ['list', [['call', 'push', [texpr, ['num', '9']], 'plain'], ['call', 'len', [texpr], 'plain']]]])
+        return ['short', 'undefined_t', '+=', rhs], probes + ['failing_compound_after_mutation']
     if kind == 'del':
         return ['del', texpr, key()], probes
     if kind == 'get':
